@@ -14,6 +14,7 @@ import (
 	"fmt"
 	"io"
 	"math/rand/v2"
+	"net/http"
 	"net/http/httptest"
 	"path/filepath"
 	"sort"
@@ -159,8 +160,9 @@ func TestC11(t *testing.T) {
 			parkedCacheWrite(t, r, i)
 		}
 		realServer(t, r)
+		twoStoresOneServer(t, r)
 	}
-	r.Require("polls_ok", "polls_failed", "changes_forward", "changes_backward", "changes_inside_window", "expired_with_handle_polls",
+	r.Require("overlapping_polls_of_two_stores", "polls_ok", "polls_failed", "changes_forward", "changes_backward", "changes_inside_window", "expired_with_handle_polls",
 		"cadence_rounds", "cadence_cases_with_slow_service", "cadence_cases_with_an_outage", "cadence_cases_with_explicit_refreshes", "parked_cache_write_cases", "ticker_overlap_cases", "coalesced_refreshes", "coalesced_with_cancelled_leader", "coalesced_after_a_joiner_gave_up", "polls_with_cache_down", "real_server_refreshes", "real_server_empty_values", "final_convergence_checks")
 	r.Rule("A: seeded histories of 8-25 events over 2-5 secrets (declared, looked-up, expiry-aged with a live unread handle): service changes (new version / re-activate an older one / bursts), Refresh with per-request failure and hold scripts (service changes inside the held window), sleeps up to several expiry ages, handle probes; oracle after every Refresh on the cache payload and at probes on handles. Plus cadence cases (background poller, instant service), coalescing cases (K refreshes while the first request is parked) and B: real server+client histories. Distinct = (event kind, poll outcome, backwards?, held?, expiry shape)")
 }
@@ -765,6 +767,89 @@ func realServer(t *testing.T, r *evid.Run) {
 		r.Eval(1)
 		r.Distinct("real-server")
 		st.Close()
+		hs.Close()
+	}
+}
+
+// twoStoresOneServer: one process runs two Stores against the same server and the same names (two components,
+// each with its configuration). One of them has seen the newest versions already, the other has not; their
+// polls overlap. Every Store's completed poll brings THAT Store up to date.
+func twoStoresOneServer(t *testing.T, r *evid.Run) {
+	dir := evid.TempDir(t)
+	for h, nh := 0, r.N(6, 60); h < nh; h++ {
+		rng := r.Rand(uint64(7_500_000 + h))
+		d, err := realdb.Open(filepath.Join(dir, fmt.Sprintf("two%d.db", h)), realdb.DummyKey("c11two"))
+		if err != nil {
+			t.Fatal(err)
+		}
+		srvMux := newMux(t, d)
+		hs := httptest.NewServer(http.HandlerFunc(func(w http.ResponseWriter, q *http.Request) {
+			time.Sleep(2 * time.Millisecond) // (a server a few network hops away)
+			srvMux.ServeHTTP(w, q)
+		}))
+		su := realdb.Super()
+		names := []string{"shared/a", "shared/b"}
+		inst := 0
+		put := func(n string) string {
+			inst++
+			v := fmt.Sprintf("%s-%d", n, inst)
+			ver, _ := d.Put(su, n, []byte(v))
+			d.Activate(su, n, ver)
+			return v
+		}
+		want := map[string]string{}
+		for _, n := range names {
+			want[n] = put(n)
+		}
+		mk := func() *setec.Store {
+			cl := setec.Client{Server: hs.URL, DoHTTP: hs.Client().Do}
+			st, err := setec.NewStore(context.Background(), setec.StoreConfig{Client: cl, Secrets: names, PollInterval: -1, Logf: func(string, ...any) {}})
+			if err != nil {
+				t.Fatal(err)
+			}
+			return st
+		}
+		a, b := mk(), mk()
+		for round := 0; round < 10; round++ {
+			for _, n := range names {
+				if rng.IntN(3) != 0 {
+					want[n] = put(n)
+				}
+			}
+			// the first store polls on its own: it is up to date now, the second one is not
+			if err := a.Refresh(context.Background()); err != nil {
+				r.Violation("real-refresh-fails", -1, fmt.Sprintf("two stores, history %d: %v", h, err), nil)
+				break
+			}
+			// now both poll, at about the same time
+			lead := time.Duration(rng.IntN(1500)) * time.Microsecond
+			errs := make(chan error, 2)
+			go func() { errs <- a.Refresh(context.Background()) }()
+			time.Sleep(lead)
+			go func() { errs <- b.Refresh(context.Background()) }()
+			e1, e2 := <-errs, <-errs
+			r.Count("overlapping_polls_of_two_stores", 1)
+			if e1 != nil || e2 != nil {
+				r.Violation("real-refresh-fails", -1, fmt.Sprintf("two stores, history %d round %d: %v / %v", h, round, e1, e2), nil)
+				break
+			}
+			bad := false
+			for _, n := range names {
+				for si, st := range []*setec.Store{a, b} {
+					if got := string(st.Secret(n).Get()); got != want[n] {
+						r.Violation("real-stale-after-poll", -1, fmt.Sprintf("two stores on one server, history %d round %d: store %d completed a poll without error (it overlapped the other store's poll by design) and still yields %q for %q; the server's active value is %q", h, round, si+1, got, n, want[n]), nil)
+						bad = true
+					}
+				}
+			}
+			if bad {
+				break
+			}
+		}
+		r.Eval(1)
+		r.Distinct("two stores, one server")
+		a.Close()
+		b.Close()
 		hs.Close()
 	}
 }
